@@ -117,6 +117,11 @@ class RequestManager(BaseModel):
         :type context: Dict
         :raises RuntimeError: If the request parameter does not have a valid request name as the first item.
         """
+        if not request:
+            msg = "Request is empty: it does not name a request within this RequestManager"
+            _LOGGER.debug(msg)
+            return RequestResponse(status="unreachable", data={"reason": msg})
+
         request_key = request[0]
         request_options = request[1:]
 
@@ -195,6 +200,9 @@ class RequestManager(BaseModel):
 
     def check_valid(self, request: RequestFormat, context: Dict) -> bool:
         """Check if this request would be valid in the current state of the simulation without invoking it."""
+
+        if not request:
+            return False
 
         request_key = request[0]
         request_options = request[1:]
